@@ -754,6 +754,11 @@ def find_unique_graphs(
     :rtype: `dict`[`str`, `set`[`str`]]
     """
     time_window = get_time_window(time_buffer, sql_data_holder)
+    # the hashes are recomputed for the current content of the store, remove
+    # the rows that an earlier run against the same database left behind
+    with sql_data_holder.session as session:
+        session.execute(sa.delete(JobHash))
+        session.commit()
     temp_table = create_temp_table_of_root_nodes_in_time_window(
         time_window, sql_data_holder
     )
